@@ -73,6 +73,74 @@ namespace awsim {
 
   ak::ContentPtr content(long h) { return get<ak::Content>(h, K_CONTENT); }
 
+  // ---- the layout helpers the Python layer calls on particular node classes (broadcasting, to_regular, from_regular,
+  //      mask handling): dispatched by dynamic type; a class that has no such method gives an ordinary error
+  struct NotApplicable: public std::invalid_argument {
+    NotApplicable(): std::invalid_argument("awsim: this node class has no such method") { }
+  };
+
+  #define AWS_LISTLIKE(x, CALL) \
+    if (auto* p = dynamic_cast<const ak::ListArray32*>(x.get())) return p->CALL; \
+    if (auto* p = dynamic_cast<const ak::ListArrayU32*>(x.get())) return p->CALL; \
+    if (auto* p = dynamic_cast<const ak::ListArray64*>(x.get())) return p->CALL; \
+    if (auto* p = dynamic_cast<const ak::ListOffsetArray32*>(x.get())) return p->CALL; \
+    if (auto* p = dynamic_cast<const ak::ListOffsetArrayU32*>(x.get())) return p->CALL; \
+    if (auto* p = dynamic_cast<const ak::ListOffsetArray64*>(x.get())) return p->CALL; \
+    if (auto* p = dynamic_cast<const ak::RegularArray*>(x.get())) return p->CALL;
+
+  #define AWS_OPTIONLIKE(x, CALL) \
+    if (auto* p = dynamic_cast<const ak::IndexedArray32*>(x.get())) return p->CALL; \
+    if (auto* p = dynamic_cast<const ak::IndexedArrayU32*>(x.get())) return p->CALL; \
+    if (auto* p = dynamic_cast<const ak::IndexedArray64*>(x.get())) return p->CALL; \
+    if (auto* p = dynamic_cast<const ak::IndexedOptionArray32*>(x.get())) return p->CALL; \
+    if (auto* p = dynamic_cast<const ak::IndexedOptionArray64*>(x.get())) return p->CALL; \
+    if (auto* p = dynamic_cast<const ak::ByteMaskedArray*>(x.get())) return p->CALL; \
+    if (auto* p = dynamic_cast<const ak::BitMaskedArray*>(x.get())) return p->CALL; \
+    if (auto* p = dynamic_cast<const ak::UnmaskedArray*>(x.get())) return p->CALL;
+
+  ak::ContentPtr helper_toregular(const ak::ContentPtr& x) {
+    AWS_LISTLIKE(x, toRegularArray())
+    if (auto* p = dynamic_cast<const ak::NumpyArray*>(x.get())) return p->toRegularArray();
+    throw NotApplicable();
+  }
+  ak::ContentPtr helper_tolistoffset64(const ak::ContentPtr& x, bool start_at_zero) {
+    AWS_LISTLIKE(x, toListOffsetArray64(start_at_zero))
+    throw NotApplicable();
+  }
+  ak::Index64 helper_compact_offsets64(const ak::ContentPtr& x, bool start_at_zero) {
+    AWS_LISTLIKE(x, compact_offsets64(start_at_zero))
+    throw NotApplicable();
+  }
+  ak::ContentPtr helper_broadcast_tooffsets64(const ak::ContentPtr& x, const ak::Index64& offsets) {
+    AWS_LISTLIKE(x, broadcast_tooffsets64(offsets))
+    throw NotApplicable();
+  }
+  ak::ContentPtr helper_project(const ak::ContentPtr& x) {
+    AWS_OPTIONLIKE(x, project())
+    throw NotApplicable();
+  }
+  ak::Index8 helper_bytemask(const ak::ContentPtr& x) {
+    AWS_OPTIONLIKE(x, bytemask())
+    throw NotApplicable();
+  }
+  ak::ContentPtr helper_tootheroption(const ak::ContentPtr& x, bool indexed) {
+    if (auto* p = dynamic_cast<const ak::BitMaskedArray*>(x.get())) {
+      if (indexed) return p->toIndexedOptionArray64();
+      return p->toByteMaskedArray();
+    }
+    if (auto* p = dynamic_cast<const ak::ByteMaskedArray*>(x.get())) return p->toIndexedOptionArray64();
+    if (auto* p = dynamic_cast<const ak::UnmaskedArray*>(x.get())) {
+      if (indexed) return p->toIndexedOptionArray64();
+      return p->toByteMaskedArray();
+    }
+    throw NotApplicable();
+  }
+  ak::ContentPtr helper_misc(const ak::ContentPtr& x) {
+    if (auto* p = dynamic_cast<const ak::NumpyArray*>(x.get())) return std::make_shared<ak::NumpyArray>(p->contiguous());
+    if (auto* p = dynamic_cast<const ak::RecordArray*>(x.get())) return p->astuple();
+    throw NotApplicable();
+  }
+
   ak::Index64 index64_from_content(const ak::ContentPtr& c) {
     // a flat NumpyArray of int64 -> an owned Index64 copy
     const ak::NumpyArray* np = dynamic_cast<const ak::NumpyArray*>(c.get());
@@ -415,6 +483,34 @@ extern "C" {
       case 23: out = x->shallow_copy(); break;
       case 24: out = x->getitem_nothing(); break;
       case 28: out = x->getitem_range_nowrap((int64_t)iargs[0], (int64_t)iargs[1]); break;
+      case 31: {
+        // (the Python layer asks a VirtualArray for its array() before it calls one of these)
+        while (auto* v = dynamic_cast<const ak::VirtualArray*>(x.get())) {
+          x = v->array();
+        }
+        switch (iargs[0]) {
+          case 0: out = helper_toregular(x); break;
+          case 1: out = helper_tolistoffset64(x, iargs[1] != 0); break;
+          case 2: {
+            // broadcasting: the offsets of one list array imposed on another of the same length (the Python layer
+            // has made the lengths equal before it gets here)
+            ak::ContentPtr y = content(b);
+            while (auto* v = dynamic_cast<const ak::VirtualArray*>(y.get())) {
+              y = v->array();
+            }
+            if (y->length() != x->length()) throw std::invalid_argument("awsim: broadcast_tooffsets64 needs arrays of equal length");
+            out = helper_broadcast_tooffsets64(x, helper_compact_offsets64(y, true));
+            break;
+          }
+          case 3: out = helper_project(x); break;
+          case 4: out = std::make_shared<ak::NumpyArray>(helper_bytemask(x)); break;
+          case 5: out = helper_tootheroption(x, iargs[1] != 0); break;
+          case 6: out = helper_misc(x); break;
+          case 7: out = std::make_shared<ak::NumpyArray>(helper_compact_offsets64(x, iargs[1] != 0)); break;
+          default: throw HarnessError("unknown layout helper");
+        }
+        break;
+      }
       case 30: {
         // a copy of the array that carries Identities (setidentities() is the one mutator of the Content API: it is
         // applied to a deep copy, so the operand itself stays untouched)
